@@ -191,6 +191,9 @@ func buildServer(doc *loads.Document, n int, point func(), plans []reqPlan, salt
 				return simapi.AuthOutcome{}
 			case strings.HasPrefix(v, "good-"):
 				return simapi.AuthOutcome{Applies: true, Principal: "P-" + scheme + "-" + strings.TrimPrefix(v, "good-")}
+			case strings.HasPrefix(v, "zero-"):
+				// accepted, and the principal is the zero value of its type (an empty account name): non-nil all the same
+				return simapi.AuthOutcome{Applies: true, Principal: ""}
 			}
 			return simapi.AuthOutcome{Applies: true, Err: errors.Unauthenticated(scheme)}
 		}}
@@ -337,7 +340,7 @@ func ownCheck(p *reqPlan, s *simapi.Obs, status int, respBody string) string {
 		}
 	}
 	if s.AuthzPrincSet && s.AuthzPrinc != nil {
-		if !strings.HasSuffix(fmt.Sprint(s.AuthzPrinc), "-"+p.tok) {
+		if !strings.HasSuffix(fmt.Sprint(s.AuthzPrinc), "-"+p.tok) && s.AuthzPrinc != "" {
 			bad = append(bad, fmt.Sprintf("principal %v is not derived from own credentials (%s)", s.AuthzPrinc, p.tok))
 		}
 	}
@@ -427,7 +430,15 @@ func serveProgram(srv *server, p *reqPlan) record {
 				if !haveRoute {
 					continue
 				}
-				format, r2 := ctx.ResponseFormat(r, route.Produces)
+				offers := route.Produces
+				if haveFormat {
+					// a later asker with its own idea of the offers: a negotiation that succeeded is not redone
+					offers = make([]string, len(route.Produces))
+					for j, o := range route.Produces {
+						offers[len(offers)-1-j] = o
+					}
+				}
+				format, r2 := ctx.ResponseFormat(r, offers)
 				if haveFormat {
 					if r2 != r {
 						note("step %d ResponseFormat: already negotiated, yet a new request value was returned", i)
@@ -614,8 +625,8 @@ func (prop) Run(t *testing.T, tape *kernel.Tape, sc kernel.Scenario) *kernel.Res
 		p.id = "id-" + p.tok
 		p.sub = "sub-" + p.tok
 		p.q = "q-" + p.tok
-		p.key1 = []string{"good", "", "bad", "good"}[tape.Choose(4, "key1")]
-		p.key2 = []string{"good", "", "bad", "good"}[tape.Choose(4, "key2")]
+		p.key1 = []string{"good", "", "bad", "good", "zero"}[tape.Choose(5, "key1")]
+		p.key2 = []string{"good", "", "bad", "good", "zero"}[tape.Choose(5, "key2")]
 		p.deny = tape.Bool(8, "deny")
 		p.ctxDone = tape.Bool(6, "request-context-already-done")
 		p.ctype = []string{"application/json", "application/vnd.sim+json", "application/json; charset=utf-8", "text/plain", "Application/VND.sim+JSON"}[tape.Choose(5, "ctype")]
